@@ -128,6 +128,8 @@ impl DiskReadScheduler {
                     }
 
                     let _token = self.reader_semaphore.access();
+                    #[cfg(feature = "verif")]
+                    crate::verif::sync_point("load:before", handle.table());
                     match self.disk_store.load_column(
                         &handle.key().table,
                         handle.id(),
@@ -141,6 +143,8 @@ impl DiskReadScheduler {
                         }
                     }
                 };
+                #[cfg(feature = "verif")]
+                crate::verif::sync_point("load:after", handle.table());
                 if handle.is_resident() {
                     log::warn!(
                         "Loaded partition for column which was already resident: {}",
